@@ -42,7 +42,8 @@ var (
 	genAnnNames    = []string{"summary", "description", "runbook_url", "dashboard"}
 	genAnnValues   = []string{"Instance {{ $labels.instance }} down", "plain text", "{{ $value }} too high", "http://example.com/x"}
 	genBadTmpl     = []string{"{{ $labels.job", "{{ end }}", "{{ .Foo | nope }}", "{{ if }}x{{ end }}"}
-	genWrongTypes  = []string{"5", "true", "~", "[a, b]", "{a: b}", "1.5", "", "2024-01-01", "!!binary aGVsbG8=", "0x10"}
+	genWrongTypes  = []string{"5", "true", "~", "[a, b]", "{a: b}", "1.5", "", "2024-01-01", "!!binary aGVsbG8=", "0x10",
+		"!!null x", "!!null 5m", "!!str [a]", "!!map foo", "!!seq foo", "!!null [a]", "!!null {a: b}"}
 	genUnknownKeys = []string{"bogus", "Expr", "severity", "alerts", "name", "rules", "groups", "interval"}
 )
 
@@ -353,6 +354,11 @@ func (g *docGen) ruleItems(n int, fancy bool) [][]string {
 		case fancy && len(anchors) > 0 && g.chance(0.1):
 			g.note("style:merge-rule")
 			it := []string{"<<: *" + pick(g.r, anchors)}
+			if g.chance(0.1) {
+				// two merge keys in one mapping (yaml refuses to decode that)
+				it = append(it, "<<: *"+pick(g.r, anchors))
+				g.note("style:merge-key-twice")
+			}
 			if g.chance(0.6) {
 				extra := g.keyValue(pick(g.r, []string{"expr", "for", "alert", "record"}), pick(g.r, []string{"up", "1m", "Over"}), false)
 				if g.chance(0.5) {
